@@ -53,6 +53,8 @@ type RunCfg struct {
 	TimeoutS   int      `json:"timeout_s"`
 	InitPkgs   []string `json:"init_pkgs"` // extra core packages whose init runs
 	Samples    int      `json:"samples"`
+	// functions whose map ranges (2-3 keys) are explored in every order
+	PermuteRanges []string `json:"permute_ranges"`
 }
 
 type CheckCfg struct {
@@ -394,6 +396,12 @@ func newSession(ld *loaded, rc RunCfg, harness, prop string, known []interp.Know
 	if hasArg {
 		s.Arg = &arg
 	}
+	if len(rc.PermuteRanges) > 0 {
+		s.PermuteRanges = map[string]bool{}
+		for _, f := range rc.PermuteRanges {
+			s.PermuteRanges[f] = true
+		}
+	}
 	if mp := os.Getenv("VERIF_MAXPATHS"); mp != "" {
 		s.MaxPaths, _ = strconv.Atoi(mp)
 	}
@@ -449,6 +457,7 @@ func cmdRun(args []string) int {
 	prop := fs.String("prop", "", "property prefix filter")
 	inl := fs.Bool("inline-go", false, "run go statements inline")
 	samples := fs.Int("samples", 0, "samples")
+	permute := fs.String("permute", "", "comma-separated ssa function names whose map ranges are permuted")
 	fs.Parse(args)
 	work := filepath.Join(verifDir, ".work", strconv.Itoa(os.Getpid()))
 	os.MkdirAll(work, 0o755)
@@ -457,6 +466,9 @@ func cmdRun(args []string) int {
 	ld := load(*dir, work)
 	fmt.Printf("loaded %s in %.1fs\n", *dir, ld.loadS)
 	rc := RunCfg{Dir: *dir, Float: *float, Solver: *solver, InlineGo: *inl, Samples: *samples}
+	if *permute != "" {
+		rc.PermuteRanges = strings.Split(*permute, ",")
+	}
 	setInitAllow(ld, rc)
 	for _, h := range fs.Args() {
 		s := newSession(ld, rc, h, *prop, kf.Findings)
